@@ -32,6 +32,19 @@ def cases(seed, tier, shard, nshards):
     rng = random.Random(f'{seed}:C10:{tier}:{shard}')
     made = 0
     while made < SIZES[tier] // nshards:
+        if rng.random() < 0.12:
+            # sharing on two levels of one hierarchy (a merge on one level must not leak into the next)
+            c = None
+            for _ in range(40):
+                m = MC.random_multilevel_case(rng, rng.choice([6, 10]), coarse_last=False)
+                if m is not None and 'squash_at_two_levels' in m['features']:
+                    c = m
+                    break
+            if c is None:
+                continue
+            made += 1
+            yield c
+            continue
         if rng.random() < 0.2:
             # label-insensitive convention on inputs whose descriptor kinds alone determine the pairing
             c = MC.random_shared_case(rng, rng.choice([6, 10, 16]), p_share=rng.choice([0.3, 0.6]), label_insensitive=True)
@@ -43,7 +56,27 @@ def cases(seed, tier, shard, nshards):
         yield c
 
 
+def run_hierarchy(case):
+    """shared atoms / shared beads on two levels of one hierarchical string: still exactly the marked ones merge"""
+    from cgsmiles import MoleculeResolver
+    contracts.clear()
+    viol = []
+    truth = MC.truth_from_json(case['truth'])
+    s = case['multi_string']
+    try:
+        cg, aa = MoleculeResolver.from_string(s).resolve_all()
+        heavy, problems = M.collapse_h(aa)
+        if problems or not M.same_molecule(heavy, truth):
+            viol.append(V('c10.hierarchy_vs_truth', f'{s} (sharing on two levels) -> {M.describe(heavy)} {problems}; the molecule is {M.describe(truth)}'))
+    except Exception as err:
+        viol.append(V('c10.hierarchy_exception.' + type(err).__name__, f'{s} raised {type(err).__name__}: {err}'))
+    contracts.clear()
+    return {'violations': viol, 'nontrivial': True, 'sample': s, 'cls': ('hierarchy', tuple(case['features']), case.get('nheavy'))}
+
+
 def run(case):
+    if case.get('kind') == 'multilevel':
+        return run_hierarchy(case)
     contracts.clear()
     viol = []
     truth = MC.truth_from_json(case['truth'])
